@@ -540,7 +540,7 @@ func c13Units(thorough bool) []*explore.Unit {
 	// client code, up to a number of steps that covers the first retry rounds of the state
 	maxK := 120
 	if thorough {
-		maxK = 250
+		maxK = 160
 	}
 	for _, st := range append([]string{"none"}, states...) {
 		for _, en := range entries {
@@ -563,7 +563,7 @@ func c13Units(thorough bool) []*explore.Unit {
 			for _, k := range ks {
 				p := c13Params{state: st, entry: en, how: "cancel-at-step", step: k}
 				out := &c13Obs{}
-				// one further deviation; the thorough tier widens the positions (250 steps)
+				// one further deviation; the thorough tier widens the positions a little (160 steps): its budget goes to the deeper passes of the other units
 				b := 1
 				units = append(units, &explore.Unit{Name: p.String(), Bound: b, Opt: vrt.Options{MaxSteps: 60000},
 					Body: c13Body(p, out), Check: c13Check(p, out),
@@ -581,7 +581,7 @@ func init() {
 	register(&Prop{
 		ID: "C13", Level: "model_checking",
 		Technique:   "stateless model checking with a freeze-the-world oracle: the client is brought into every wait state by script, the context ends at enumerated virtual instants (or under all schedules up to a deviation bound), and from that instant the environment answers nothing; the API call must return on client-internal steps alone",
-		Rule:        "wait states {ZooKeeper silent, meta silent, probe unanswered, retry back-off, server silent after the request, region being re-established with meta silent, lookup back-off} x entry points {get, put, batch with shared context, batch with one call's own context, scanner} x {cancel, deadline} x 4 instants (0, 20 ms, 3 s, 100 s of virtual time), schedules with <=1 (thorough 2) deviations; plus the region client's busy send queue (writer blocked in Write) on tier R. Oracle: the call returns, with a context error, no later than 1 s of virtual time after the context ended; a batch returns with only that call failed. Non-trivial = at least one non-default scheduling choice or a non-zero instant. Additionally the context is cancelled at EVERY scheduling step of a thread running client code during the call (first 120, thorough 250, steps), in each wait state and on a healthy cluster, x every entry point (vrt.GoInterrupt: the event's thread is created waiting for that step and is the default choice there, so its position is a parameter of the unit and costs no deviation), with <=1 further deviation. Tier W: the k-th connection operation fails while two callers with their own contexts are sending directly (<=1 deviation, thorough 2), then cancel; a regionserver that stopped reading (writes blocked, the writer occupied) x {batch whose calls have their own deadlines, batch with a deadline, batched get, unbatched get}.",
+		Rule:        "wait states {ZooKeeper silent, meta silent, probe unanswered, retry back-off, server silent after the request, region being re-established with meta silent, lookup back-off} x entry points {get, put, batch with shared context, batch with one call's own context, scanner} x {cancel, deadline} x 4 instants (0, 20 ms, 3 s, 100 s of virtual time), schedules with <=1 (thorough 2) deviations; plus the region client's busy send queue (writer blocked in Write) on tier R. Oracle: the call returns, with a context error, no later than 1 s of virtual time after the context ended; a batch returns with only that call failed. Non-trivial = at least one non-default scheduling choice or a non-zero instant. Additionally the context is cancelled at EVERY scheduling step of a thread running client code during the call (first 120, thorough 160, steps), in each wait state and on a healthy cluster, x every entry point (vrt.GoInterrupt: the event's thread is created waiting for that step and is the default choice there, so its position is a parameter of the unit and costs no deviation), with <=1 further deviation. Tier W: the k-th connection operation fails while two callers with their own contexts are sending directly (<=1 deviation, thorough 2), then cancel; a regionserver that stopped reading (writes blocked, the writer occupied) x {batch whose calls have their own deadlines, batch with a deadline, batched get, unbatched get}.",
 		Assumptions: []string{"virtual clock: 'promptly' is measured in virtual time with the environment frozen", "an unbatched call blocked inside net.Conn.Write is explored too and is an open known finding (no write deadline)"},
 		Quick:       150 * time.Second, Thorough: 45 * time.Minute,
 		Units: c13Units,
